@@ -98,7 +98,7 @@ func c16Relex(name, pre, slice string, pos encoding.StatementOffsetsType, base s
 	return c16Term(q.GraphName.(rdf.Term)), true
 }
 
-var reStructural = regexp.MustCompile(`^(\[|\(|\)|\[[ \t\r\n]*\]|\([ \t\r\n]*\))$`)
+var reStructural = regexp.MustCompile(`^(\[|\(|\)|\[([ \t\r\n]|#[^\n]*\n)*\]|\(([ \t\r\n]|#[^\n]*\n)*\))$`)
 
 func c16Structural(slice string, want rdf.Term) string {
 	if !strings.HasPrefix(slice, "[") && !strings.HasPrefix(slice, "(") && !strings.HasPrefix(slice, ")") {
@@ -143,12 +143,65 @@ func c16StripLiteralSpace(res zooResult) zooResult {
 }
 
 // a start tag in which a quoted attribute value is directly followed by the next attribute name
+var reTag = regexp.MustCompile(`<(/?)([a-zA-Z][a-zA-Z0-9]*)([^<>]*)>`)
+var htmlVoid = map[string]bool{"area": true, "base": true, "br": true, "col": true, "embed": true, "hr": true, "img": true, "input": true, "link": true, "meta": true, "source": true, "track": true, "wbr": true}
+var closesP = map[string]bool{"p": true, "div": true, "section": true, "ul": true, "ol": true, "li": true, "table": true, "td": true, "h1": true, "form": true, "pre": true, "blockquote": true}
+
+// c16UnbalancedFormatting: the markup is not plainly nested, so the HTML tree builder closes elements implicitly,
+// clones or re-parents them (end tag not matching the open element, unclosed elements, a block start inside <p>,
+// <a> inside <a>, <li> directly inside <li>, table cells outside a table, repeated <html>/<head>/<body>)
+func c16UnbalancedFormatting(doc []byte) bool {
+	var stack []string
+	seen := map[string]int{}
+	on := func(t string) bool {
+		for _, x := range stack {
+			if x == t {
+				return true
+			}
+		}
+		return false
+	}
+	for _, m := range reTag.FindAllStringSubmatch(strings.ToLower(string(doc)), -1) {
+		end, tag := m[1] == "/", m[2]
+		if end {
+			if htmlVoid[tag] {
+				return true
+			}
+			if len(stack) == 0 || stack[len(stack)-1] != tag {
+				return true
+			}
+			stack = stack[:len(stack)-1]
+			continue
+		}
+		seen[tag]++
+		switch {
+		case (tag == "html" || tag == "head" || tag == "body") && seen[tag] > 1:
+			return true
+		case tag == "td" || tag == "tr" || tag == "th" || tag == "tbody":
+			return true
+		case closesP[tag] && on("p"):
+			return true
+		case tag == "a" && on("a"):
+			return true
+		case tag == "li" && len(stack) > 0 && stack[len(stack)-1] == "li":
+			return true
+		}
+		if !htmlVoid[tag] {
+			stack = append(stack, tag)
+		}
+	}
+	return len(stack) > 0
+}
+
+var reBodyTag = regexp.MustCompile(`(?i)<body[\s>/]`)
+var reHTMLTag = regexp.MustCompile(`(?i)<html[\s>/]`)
 var reAbuttingAttr = regexp.MustCompile(`<[a-zA-Z][^<>]*=\s*("[^"<>]*"|'[^'<>]*')[^\s>/'"<][^<>]*>`)
 
 // minimal documents of the known findings and of repaired defects: run first, every time
 var c16Pinned = []struct{ name, doc string }{
 	{"htmlrdfa", "<root prefix=\"dc: http://purl.org/dc/elements/1.1/\"><body>\n<span about=\"#b\" property=\"dc:title\" />\n  </body>\n</root>"}, // F40
 	{"htmldefaults", "<?"}, // F49
+	{"htmlmicrodata", "<html><body><body itemscope><div itemprop=\"a\" itemscope></div></body></html>"},                                                                                                     // F52
 	{"htmlrdfa", "<html v=\"\"sion=\"XHTML+RDFa 1.1\" prefix=\"ex: http://example.org/\">\n<head>\n<meta about=\"http://example.org/node\" property=\"ex:property\" content=\"chat\" />\n</head>\n</html>"}, // F50
 	{"htmlrdfa", "<html><body vocab=\"http://e/\"><p about=\"http://e/s\" property=\"q\">a\x00b</p></body></html>"},                                                                                         // F51
 	{"htmlrdfa", "<html><body vocab=\"http://e/\"><p about=\"http://e/s\" property=\"q\">a\xffb</p></body></html>"},                                                                                         // F36b
@@ -202,6 +255,8 @@ func c16Offsets(r *hx.Rand, n int, out *hx.Out, _ []string) {
 			switch {
 			case strings.Contains(on.detail, "no grapheme cluster found") && !utf8.Valid(doc):
 				sig = "C16/offsets-invalid-utf8-grapheme-panic"
+			case strings.HasPrefix(name, "html") && strings.Contains(on.detail, "index out of range") && off.verdict != "panic" && c16UnbalancedFormatting(doc):
+				sig = "C16/html-capture-reparented-metadata"
 			case strings.HasPrefix(name, "html") && strings.Contains(on.detail, "nil pointer dereference") && off.verdict != "panic":
 				sig = "C16/html-offsets-missing-node-metadata"
 			}
@@ -215,6 +270,10 @@ func c16Offsets(r *hx.Rand, n int, out *hx.Out, _ []string) {
 				sig = "C16/html-capture-whitespace-text-placement" // known finding F40: only white space inside literals differs
 			case strings.HasPrefix(name, "html") && bytes.IndexByte(doc, 0) >= 0 && c15Same(name, c16StripLiteralNUL(off), c16StripLiteralNUL(on)):
 				sig = "C16/html-capture-nul-in-text" // known finding F51: only U+0000 inside literals differs
+			case strings.HasPrefix(name, "html") && on.verdict == "ok" && off.verdict == "ok" && (len(reBodyTag.FindAll(doc, 3)) > 1 || len(reHTMLTag.FindAll(doc, 3)) > 1):
+				sig = "C16/html-capture-repeated-body-tag" // known finding F52: attributes of a repeated <body>/<html> start tag
+			case strings.HasPrefix(name, "html") && on.verdict == "ok" && off.verdict == "ok" && c16UnbalancedFormatting(doc):
+				sig = "C16/html-capture-nonplain-markup-tree-differs" // known finding F56
 			case strings.HasPrefix(name, "html") && on.verdict == "error" && off.verdict == "ok" && strings.Contains(on.detail, "slice bounds out of range"):
 				sig = "C16/html-capture-bogus-comment-slice-bounds" // known finding F49: inspecthtml-go on bogus comments
 			}
@@ -226,6 +285,9 @@ func c16Offsets(r *hx.Rand, n int, out *hx.Out, _ []string) {
 			}
 		}
 		pre, preOK := c16Preamble(string(doc))
+		if kind == "generated" && (name == "turtle" || name == "trig") {
+			pre, preOK = c15LastPreamble+"\n", true
+		}
 		nranges := 0
 		for i, so := range on.offs {
 			for pos, rg := range so {
@@ -234,6 +296,8 @@ func c16Offsets(r *hx.Rand, n int, out *hx.Out, _ []string) {
 					oracle = fmt.Sprintf("statement %d %s: %s", i, encoding.StatementOffsetsTypeName(pos), w)
 					if strings.HasPrefix(name, "html") && reAbuttingAttr.Match(doc) {
 						sig = "C16/html-capture-abutting-attributes" // known finding F50
+					} else if strings.HasPrefix(name, "html") && c16UnbalancedFormatting(doc) {
+						sig = "C16/html-capture-reparented-metadata" // known finding F53
 					}
 					continue
 				}
